@@ -47,6 +47,7 @@ def setup():
 
 
 _PRISTINE = {}
+_NAMES_AT_IMPORT = {}
 _CONSENSUS_MODULES = ("skepticoin.consensus", "skepticoin.pow", "skepticoin.balances", "skepticoin.merkletree", "skepticoin.datatypes",
                       "skepticoin.serialization", "skepticoin.hash", "skepticoin.signing", "skepticoin.coinstate")
 
@@ -72,6 +73,7 @@ def _snapshot_module_state():
             except Exception:
                 pass
         _PRISTINE[mn] = snap
+        _NAMES_AT_IMPORT[mn] = set(vars(m))
 
 
 def reset_module_state():
@@ -91,7 +93,7 @@ def reset_module_state():
             except Exception:
                 pass
         # names that did not exist at import time hold state created later: drop them so that the code re-creates them
-        for k in [k for k, v in list(cur.items()) if k not in snap and not k.startswith("__") and not callable(v)
+        for k in [k for k, v in list(cur.items()) if k not in _NAMES_AT_IMPORT.get(mn, cur) and not k.startswith("__") and not callable(v)
                   and not isinstance(v, (types.ModuleType, type))]:
             del cur[k]
 
